@@ -11,6 +11,8 @@ TRUST = ('Assumed, not proved: floats are mathematical reals and ints unbounded 
 TECH = ('contract-based deductive verification: sidecar contracts (requires/ensures/modifies/invariants) on the real '
         'functions of /repo/mabwiser, VCs generated from their AST on every run (PyVC) and discharged by z3')
 
+SCOPE = ' Scope of this claim: the context-free policies, the linear policies, Radius and KNearest over every one of them, and the MAB facade constructed over those; LSHNearest, Clusters, TreeBandit and the Simulator are not under contract yet (stated in DESIGN.md; a change confined to those modules is not seen by this check).'
+
 CLAIMS = {
     'C01': ('Per-class representation invariant (sum, count, mean, UCB bonus with N, soft-max share, normalised share, '
             'Beta counters) proved preserved by __init__, fit, partial_fit, add_arm, remove_arm of all six context-free '
@@ -20,13 +22,58 @@ CLAIMS = {
             'calls is the invariant).', '7 C01'),
     'C02': ('Ridge model contracts: init, incremental normal equations A += X\'X, Xty += X\'y, beta = A^-1 Xty on the '
             'rows of each arm (with the per-arm scaler as an abstract function), LinUCB / LinTS / ridge predict row by '
-            'row for every shape (d = 1, m = 1 forks of squeeze and broadcasting), the vectorised prediction glue. '
-            'Known finding D2 (initial covariance lambda*I instead of I/lambda) is reported, its residual (lambda = 1) '
-            'is proved.', '7 C02'),
+            'row for every shape (d = 1, m = 1 forks of squeeze and broadcasting), the vectorised prediction glue '
+            '(exploring rows, first-maximum arm). Known finding D2 (initial covariance lambda*I instead of I/lambda) is '
+            'reported, its residual (lambda = 1) is proved.', '7 C02'),
+    'C03': ('History invariant of _Neighbors (three row-aligned columns, replaced by fit, appended by partial_fit), '
+            'row-level postcondition of _Radius / _KNearest._predict_contexts: row j is answered by a fresh copy of the '
+            'learning policy seeded with seed j and trained on exactly the stored rows with distance <= radius (k smallest '
+            'by the argpartition contract); the value is proved to be a function of the policy configuration, the seed, the '
+            'selected rows and the query only (self-composition), for every learning policy; NaN / configured distribution '
+            'for an empty neighbourhood. Known finding D13 (stale no_nhood_prob_of_arm after arm changes).', '7 C03'),
+    'C04': ('MAB.__init__ is proved to create the bandit\'s only generator from the seed and a private arm list; the '
+            'engine refuses (UNDECIDED, never passed) any function that reads a module-level name that is not an immutable '
+            'constant, so every function under contract is a function of its arguments and receiver (no ambient state); '
+            'every generator reaching a draw is the bandit\'s generator or one created from a seed drawn from it.'
+            + SCOPE, '7 C04'),
+    'C05': ('_partition_contexts is proved to return an ordered exact cover; _parallel_predict is proved, from that '
+            'contract only (hence for every contiguous partition), to return for row j the row-local value of '
+            '(model, row j, seed j) with the seeds drawn once before partitioning (flattening by the telescoping-sum rule); '
+            'every _predict_contexts has an empty frame on self; every _fit_arm writes only its own arm\'s entries '
+            '(parallel-map rule); _effective_jobs bounds. Known finding D6b: LinTS under a neighbourhood policy is not '
+            'row-local.' + SCOPE, '7 C05'),
+    'C07': ('fit postconditions of every implementor define each learned quantity as a function of the new data, the '
+            'configuration and the arms only (no old(...) on the right-hand side), verified from an arbitrary pre-state '
+            'that satisfies only the key-structure part of the invariant. Known finding D6a (LinTS model generators '
+            'survive fit).' + SCOPE, '7 C07'),
+    'C08': ('Key-sequence invariants (every per-arm dictionary has exactly the arm list as keys, in order) proved across '
+            'add_arm / remove_arm / fit / partial_fit / warm_start of every class and the facade; result-shape '
+            'postconditions (member of the arm list, keys equal to the arm list, list of m results iff m > 1, row '
+            'order).' + SCOPE, '7 C08'),
+    'C09': ('predict of every context-free policy and of the linear policies is proved to return the first arm (arm-list '
+            'order) attaining the maximum of exactly the expectations predict_expectations returns from the same state and '
+            'stream position; under Radius / KNearest both modes are the same functional row value with the learning '
+            'policy\'s own predict.' + SCOPE, '7 C09'),
+    'C10': ('Frame conditions: predict / predict_expectations / _predict_contexts / _vectorized_predict_context modify '
+            'nothing but generator stream states (plus the Thompson cache, outside the learned state); frame obligations '
+            'are generated for every heap write of these functions.' + SCOPE, '7 C10'),
     'C13': ('Contracts for cold_arms / trained_arms, pairwise distances, the quantile threshold, the cold-to-trained '
             'mapping (domain within the cold arms, image a trained arm at minimal distance within the threshold, first on '
             'ties, completeness), _copy_arms of every policy (exact copy, trained arms untouched) and _warm_start status '
-            'bookkeeping, for symbolic arm sets, features and quantiles.', '7 C13'),
+            'bookkeeping, MAB.warm_start / cold_arms, for symbolic arm sets, features and quantiles.', '7 C13'),
+    'C14': ('The binarizer is an uninterpreted function of (decision, reward); _get_binary_rewards converts iff a '
+            'binarizer is set and the neighbourhood policy has not converted already; fit / partial_fit counters are '
+            'stated over the once-converted rewards; _Neighbors.fit / partial_fit store the converted rewards and raise '
+            'the flag; add_arm installs a binarizer for later observations only (defect D17 repaired).' + SCOPE, '7 C14'),
+    'C17': ('On every exceptional exit of every public method and every implementor entry under contract an obligation '
+            'per written location shows the pre-call value is restored or never changed (raises.unchanged); raises_iff '
+            'contracts state exactly which calls are rejected (validation, feature-count mismatch), including exits from '
+            'inside summarised loops (state after k complete iterations plus the partial one).' + SCOPE, '7 C17'),
+    'C18': ('Containers are abstract values with a kind and a content; _convert_array / __convert_context are proved to '
+            'return the content unchanged for every accepted kind (Series row/column rule included) and to reject the '
+            'rest; implementors only ever receive the converted arrays; frame obligations show no caller object is '
+            'written; MAB.__init__ copies the arm list. dtype and memory layout are below the abstraction (A1, A4).'
+            + SCOPE, '7 C18'),
 }
 
 NOT_YET = 'check under construction in this session (contracts for the functions it depends on are not complete yet); not claimed'
